@@ -119,9 +119,9 @@ package join
 //@   requires [C09] (len(item) < dsc.opts.JoinSize && !gClosed) ==> gClock - gLastDeliv >= dsc.opts.Timeout
 //@   requires [C08] OWN(dsc)
 //@   requires [C08] item.arr == dsc.join.arr
-//@   modifies gOutN, gLastDeliv, gLent, gOwned
+//@   modifies gOutN, gLastDeliv, gLent, gOwned, gClock
 //@   ensures [C03] gOutN == old(gOutN) + len(item)
-//@   ensures [C09] gLastDeliv == gClock
+//@   ensures [C09] gLastDeliv <= gClock && gClock >= old(gClock)
 //@   ensures [C08] OWN(dsc)
 
 //@ func (*Discipline).pass
